@@ -63,34 +63,47 @@ def eatWhile (p : Char → Bool) : List Char → List Char × List Char
   | [] => ([], [])
   | c :: cs => if p c then let (a, b) := eatWhile p cs; (c :: a, b) else ([], c :: cs)
 
+/-- the edge case of the block `'float`: `10..`, `10._hello`, `10.hello` are an
+    integer followed by something else (`break 'float`) -/
+def floatBrk (xidStart : Char → Bool) : List Char → Bool
+  | '.' :: c :: _ => xidStart c || c == '.' || c == '_'
+  | _ => false
+
+/-- `if tail.starts_with('.') { is_float = true; eat '.'; eat digits }` -/
+def floatFrac : List Char → Bool × List Char × List Char
+  | '.' :: t' => let r := eatWhile isRotoDigit t'; (true, '.' :: r.1, r.2)
+  | t => (false, [], t)
+
+/-- `if tail.eat_one_of(['e', 'E']) { is_float = true; eat_one_of(['+', '-']); eat digits }` -/
+def floatExp (isF : Bool) (fl : List Char) : List Char → Bool × List Char × List Char
+  | e :: t' =>
+    if e == 'e' || e == 'E' then
+      let sg : List Char × List Char := match t' with
+        | s :: u => if s == '+' || s == '-' then ([s], u) else ([], t')
+        | [] => ([], [])
+      let r := eatWhile isRotoDigit sg.2
+      (true, fl ++ e :: sg.1 ++ r.1, r.2)
+    else (isF, fl, e :: t')
+  | [] => (isF, fl, [])
+
+/-- the labelled block `'float: { … }` of `Lexer::number`, run on the text
+    after the first digits: (is it a float, the characters it adds to the
+    number, the text after them) -/
+def floatBlock (xidStart : Char → Bool) (t : List Char) : Bool × List Char × List Char :=
+  if floatBrk xidStart t then (false, [], t) else
+  let r := floatFrac t
+  floatExp r.1 r.2.1 r.2.2
+
 /-- `Lexer::number`; `xidStart`/`xidCont` are `unicode_ident`'s predicates. -/
 def lexNumber (xidStart xidCont : Char → Bool) (inp : List Char) : Option NumTok :=
   match inp with
   | [] => none
   | c0 :: _ =>
     if !isDigit c0 then none else
-    let (d, t) := eatWhile isRotoDigit inp
-    -- the labelled block `'float`
-    let (isF, fl, t) : Bool × List Char × List Char :=
-      let brk : Bool := match t with
-        | '.' :: c :: _ => xidStart c || c == '.' || c == '_'
-        | _ => false
-      if brk then (false, [], t) else
-      let (isF, fl, t) : Bool × List Char × List Char := match t with
-        | '.' :: t' => let (fr, t'') := eatWhile isRotoDigit t'; (true, '.' :: fr, t'')
-        | _ => (false, [], t)
-      match t with
-      | e :: t' =>
-        if e == 'e' || e == 'E' then
-          let (sg, t'') : List Char × List Char := match t' with
-            | s :: u => if s == '+' || s == '-' then ([s], u) else ([], t')
-            | [] => ([], [])
-          let (ex, t''') := eatWhile isRotoDigit t''
-          (true, fl ++ e :: sg ++ ex, t''')
-        else (isF, fl, t)
-      | [] => (isF, fl, t)
-    let (suf, rest) := eatWhile (fun c => xidCont c || c == '_') t
-    some { isFloat := isF, num := d ++ fl, suffix := suf, rest := rest }
+    let dt := eatWhile isRotoDigit inp
+    let fb := floatBlock xidStart dt.2
+    let sr := eatWhile (fun c => xidCont c || c == '_') fb.2.2
+    some { isFloat := fb.1, num := dt.1 ++ fb.2.1, suffix := sr.1, rest := sr.2 }
 
 /-! ## `simple_literal`, integer tokens -/
 
